@@ -463,7 +463,30 @@ pub fn run_once(f: Scenario, prefix: Vec<u32>, mode: Mode, seed: u64, want_sampl
     };
     let mut ctx = Ctx::new(prefix, mode, seed);
     ctx.want_sample = want_sample;
-    f(&mut ctx);
+    // A panic inside an execution that is not a machinery exit is an assumption of the harness about
+    // the library that did not hold (an `expect` on a constructor of the alphabet, an index into a
+    // result it took for well-formed) or a library panic outside a guarded call. On the unchanged tree
+    // there is none; under a changed library it is what the change did, so it is reported as a
+    // violation of the property being checked, with the choices as replay, not as a machinery failure.
+    let r = catch_unwind(AssertUnwindSafe(|| f(&mut ctx)));
+    if let Err(p) = r {
+        if p.downcast_ref::<Machinery>().is_some() {
+            std::panic::resume_unwind(p);
+        }
+        let msg = if let Some(s) = p.downcast_ref::<&str>() {
+            s.to_string()
+        } else if let Some(s) = p.downcast_ref::<String>() {
+            s.clone()
+        } else {
+            "panic".to_string()
+        };
+        let loc = LAST_PANIC.with(|p| p.borrow().clone());
+        let file = loc.as_ref().map(|l| l.file.clone()).unwrap_or_default();
+        let prop = PROP_CACHE.with(|c| c.borrow().clone());
+        crate::builder::reset_hooks_after_panic();
+        ctx.pruned = true;
+        ctx.violation(format!("{}/harness-assumption-about-the-library-broken@{}/{}", if prop.is_empty() { "C??" } else { &prop }, file, norm_msg(&msg)), format!("{} at {:?}", msg, loc));
+    }
     if ctx.pos < ctx.prefix.len() && !ctx.pruned {
         machinery(format!(
             "replay divergence: execution consumed {} choices but {} were recorded",
